@@ -1,16 +1,488 @@
-(** C18 proofs (first part): lock balance, framing, block-sync lock regression. *)
+(** C18 proofs, part 2: the consensus reactor's Receive paths into PeerState and the gossip-side
+    bit-array expressions never panic, never allocate above the limit, keep the peer state
+    well-formed and release every mutex; block-sync lock balance; framing; wire round trip. *)
 From Coq Require Import List ZArith NArith Bool Lia.
-From Kardia Require Import C18.Model Generated.C18Facts.
+From Kardia Require Import C18.Model C18.ProofsBits Generated.C18Facts.
 Import ListNotations.
 Local Open Scope Z_scope.
+
+(** ** Well-formed peer state *)
+
+Definition wf_prs (p : PRS) : Prop :=
+  wf_oba (p_parts p) /\ wf_oba (p_pol p) /\ wf_oba (p_prevotes p) /\ wf_oba (p_precommits p) /\
+  wf_oba (p_lc p) /\ wf_oba (p_cc p).
+
+Lemma wf_prs0 : wf_prs prs0.
+Proof. unfold wf_prs, prs0; cbn; tauto. Qed.
+
+Lemma wf_cc_of : forall p, wf_prs p -> wf_oba (cc_of p).
+Proof. intros p H. unfold cc_of. destruct (p_cc_alias p); unfold wf_prs in H; tauto. Qed.
+
+Lemma wf_read_slot : forall p s, wf_prs p -> wf_oba (read_slot p s).
+Proof. intros p s H. destruct s; cbn; try (unfold wf_prs in H; tauto). now apply wf_cc_of. Qed.
+
+Ltac prs := unfold wf_prs in *; cbn in *; tauto.
+
+Lemma wf_set_parts : forall p v, wf_prs p -> wf_oba v -> wf_prs (set_parts p v). Proof. intros; prs. Qed.
+Lemma wf_set_pol : forall p v, wf_prs p -> wf_oba v -> wf_prs (set_pol p v). Proof. intros; prs. Qed.
+Lemma wf_set_prevotes : forall p v, wf_prs p -> wf_oba v -> wf_prs (set_prevotes p v). Proof. intros; prs. Qed.
+Lemma wf_set_precommits : forall p v, wf_prs p -> wf_oba v -> wf_prs (set_precommits p v). Proof. intros; prs. Qed.
+Lemma wf_set_lc : forall p v, wf_prs p -> wf_oba v -> wf_prs (set_lc p v). Proof. intros; prs. Qed.
+Lemma wf_set_cc : forall p v a, wf_prs p -> wf_oba v -> wf_prs (set_cc p v a). Proof. intros; prs. Qed.
+
+Lemma wf_write_slot : forall p s v, wf_prs p -> wf_oba v -> wf_prs (write_slot p s v).
+Proof.
+  intros p s v H Hv. destruct s; cbn;
+    [apply wf_set_prevotes|apply wf_set_precommits| |apply wf_set_pol|apply wf_set_lc]; auto.
+  destruct (p_cc_alias p); [apply wf_set_precommits|apply wf_set_cc]; auto.
+Qed.
+
+(** ** PeerState setters *)
+
+Lemma set_has_vote_safe : forall p h r t idx, wf_prs p -> 0 <= idx -> safe wf_prs (set_has_vote p h r t idx).
+Proof.
+  intros p h r t idx H Hi. unfold set_has_vote.
+  destruct (get_slot p h r t) as [s|]; [|exact H].
+  pose proof (wf_read_slot p s H) as Hs. destruct (read_slot p s) as [b|]; [|exact H].
+  eapply safe_bind; [apply set_index_safe; assumption|].
+  intros x [Hx _]. cbn. apply wf_write_slot; assumption.
+Qed.
+
+Lemma ensure_slot : forall (p : PRS) (cur : option BitArray) (n : Z) (setter : PRS -> option BitArray -> PRS),
+    wf_prs p -> n <= bmax -> (forall q v, wf_prs q -> wf_oba v -> wf_prs (setter q v)) ->
+    safe wf_prs (match cur with Some _ => Ok p | None => do b <- new_bitarray n; Ok (setter p b) end).
+Proof.
+  intros p cur n setter H Hn Hset. destruct cur; [exact H|].
+  eapply safe_bind; [apply new_bitarray_safe; assumption|]. intros b Hb. cbn. apply Hset; assumption.
+Qed.
+
+Lemma ensure_vote_bit_arrays_safe : forall p h n, wf_prs p -> n <= bmax -> safe wf_prs (ensure_vote_bit_arrays p h n).
+Proof.
+  intros p h n H Hn. unfold ensure_vote_bit_arrays.
+  destruct (p_height p =? h).
+  - eapply safe_bind; [apply (ensure_slot p (p_prevotes p) n set_prevotes H Hn wf_set_prevotes)|]. intros p1 H1.
+    eapply safe_bind; [apply (ensure_slot p1 (p_precommits p1) n set_precommits H1 Hn wf_set_precommits)|]. intros p2 H2.
+    eapply safe_bind; [apply (ensure_slot p2 (cc_of p2) n (fun q v => set_cc q v false) H2 Hn); intros; apply wf_set_cc; assumption|]. intros p3 H3.
+    apply (ensure_slot p3 (p_pol p3) n set_pol H3 Hn wf_set_pol).
+  - destruct (p_height p =? h + 1); [|exact H].
+    apply (ensure_slot p (p_lc p) n set_lc H Hn wf_set_lc).
+Qed.
+
+Lemma ensure_catchup_safe : forall p h r n, wf_prs p -> n <= bmax -> safe wf_prs (ensure_catchup_commit_round p h r n).
+Proof.
+  intros p h r n H Hn. unfold ensure_catchup_commit_round.
+  destruct (negb (p_height p =? h)); [exact H|]. destruct (p_ccr p =? r); [exact H|].
+  destruct (r =? p_round p).
+  - cbn. prs.
+  - eapply safe_bind; [apply new_bitarray_safe; assumption|]. intros b Hb. cbn. prs.
+Qed.
+
+Lemma apply_nrs_wf : forall p h r s lcr, wf_prs p -> wf_prs (apply_nrs p h r s lcr).
+Proof.
+  intros p h r s lcr H. pose proof (wf_cc_of p H) as Hcc. unfold apply_nrs.
+  destruct (compare_hrs h r s (p_height p) (p_round p) (p_step p) <=? 0); [exact H|].
+  cbv zeta.
+  destruct (negb (p_height p =? h) || negb (p_round p =? r));
+  destruct ((p_height p =? h) && negb (p_round p =? r) && (r =? p_ccr p));
+  destruct (negb (p_height p =? h));
+  destruct (cc_of p) as [c|] eqn:Ecc; destruct (p_cc_alias p);
+  try destruct ((p_height p + 1 =? h) && (p_round p =? lcr));
+  unfold wf_prs in *; cbn in *; try tauto.
+Qed.
+
+Lemma set_has_proposal_safe : forall p h r polr total, wf_prs p -> total <= bmax ->
+  safe wf_prs (set_has_proposal p h r polr total).
+Proof.
+  intros p h r polr total H Ht. unfold set_has_proposal.
+  destruct (negb (p_height p =? h) || negb (p_round p =? r)); [exact H|].
+  destruct (p_proposal p); [exact H|].
+  destruct (p_parts p) eqn:E; [unfold wf_prs in *; rewrite E in H; cbn in *; tauto|].
+  eapply safe_bind; [apply new_bitarray_safe; assumption|]. intros b Hb. cbn. prs.
+Qed.
+
+Lemma set_has_part_safe : forall p h r idx, wf_prs p -> 0 <= idx -> safe wf_prs (set_has_part p h r idx).
+Proof.
+  intros p h r idx H Hi. unfold set_has_part.
+  destruct (negb (p_height p =? h) || negb (p_round p =? r)); [exact H|].
+  destruct (p_parts p) as [b|] eqn:E; [|exact H].
+  eapply safe_bind; [apply set_index_safe; [unfold wf_prs in H; rewrite E in H; cbn in H; tauto|assumption]|].
+  intros x [Hx _]. cbn. apply wf_set_parts; assumption.
+Qed.
+
+Lemma apply_nvb_wf : forall p h r total ba ic, wf_prs p -> wf_ba ba -> wf_prs (apply_nvb p h r total ba ic).
+Proof.
+  intros p h r total ba ic H Hb. unfold apply_nvb.
+  destruct (negb (p_height p =? h)); [exact H|]. destruct (negb (p_round p =? r) && negb ic); [exact H|]. prs.
+Qed.
+
+Lemma apply_pol_wf : forall p h polr ba, wf_prs p -> wf_ba ba -> wf_prs (apply_pol p h polr ba).
+Proof.
+  intros p h polr ba H Hb. unfold apply_pol.
+  destruct (negb (p_height p =? h)); [exact H|]. destruct (negb (p_polround p =? polr)); [exact H|].
+  apply wf_set_pol; assumption.
+Qed.
+
+Lemma apply_hv_safe : forall p h r t idx, wf_prs p -> 0 <= idx -> safe wf_prs (apply_hv p h r t idx).
+Proof. intros. unfold apply_hv. destruct (negb (p_height p =? h)); [assumption|]. now apply set_has_vote_safe. Qed.
+
+Lemma apply_vsb_safe : forall p h r t vm ours, wf_prs p -> wf_ba vm -> wf_oba ours -> safe wf_prs (apply_vsb p h r t vm ours).
+Proof.
+  intros p h r t vm ours H Hvm Ho. unfold apply_vsb.
+  destruct (get_slot p h r t) as [s|]; [|exact H].
+  pose proof (wf_read_slot p s H) as Hs. destruct (read_slot p s) as [v|]; [|exact H].
+  destruct ours as [o|].
+  - eapply safe_bind; [apply (sub_safe (Some v) (Some o)); assumption|]. intros other Hot.
+    eapply safe_bind; [apply (or_safe other (Some vm)); assumption|]. intros has Hhas.
+    cbn. apply wf_write_slot; [assumption|]. apply (update_wf (Some v) has). exact Hs.
+  - cbn. apply wf_write_slot; [assumption|]. apply (update_wf (Some v) (Some vm)). exact Hs.
+Qed.
+
+(** ** Messages that passed MsgFromProto *)
+
+(** fields that are unsigned on the wire (uint32 in the .proto) *)
+Definition wire_typed (w : wire) : Prop :=
+  match w with
+  | WBP _ _ idx _ _ _ _ => 0 <= idx
+  | WVoteMsg (Some v) => 0 <= wv_index v
+  | WHV _ _ _ idx => 0 <= idx
+  | _ => True
+  end.
+
+Definition msg_ok (m : msg) : Prop :=
+  match m with
+  | MNVB _ _ _ ba _ => wf_ba ba
+  | MProp _ _ _ total => total <= bmax
+  | MPOL _ _ ba => wf_ba ba
+  | MBP _ _ idx => 0 <= idx
+  | MVote _ _ _ idx => 0 <= idx
+  | MHV _ _ _ idx => 0 <= idx
+  | MVSB _ _ _ ba => wf_ba ba
+  | _ => True
+  end.
+
+Lemma from_proto_ok : forall w m, wire_typed w -> from_proto w = Some m -> msg_ok m.
+Proof.
+  intros w m Ht H. pose proof bmax_facts as [F1 [F2 [F3 F4]]].
+  destruct w; cbv beta iota zeta delta [from_proto] in H; try discriminate.
+  - destruct ((step_min <=? step mod 256) && (step mod 256 <=? step_max)); inversion H; exact I.
+  - destruct (negb (ba_valid (from_wbits ba))) eqn:E1; [discriminate|].
+    destruct (size (Some (from_wbits ba)) =? 0); [discriminate|].
+    destruct (negb (size (Some (from_wbits ba)) =? total)); [discriminate|].
+    destruct (max_block_parts_count <? size (Some (from_wbits ba))) eqn:E4; [discriminate|].
+    inversion H; subst. cbn. apply negb_false_iff in E1. apply Z.ltb_ge in E4.
+    apply (ba_valid_wf ba); [assumption|lia].
+  - destruct (negb (bid_complete (bid_of bid))); [discriminate|].
+    destruct (max_block_parts_count <? b_total (bid_of bid)) eqn:E; [discriminate|].
+    destruct (siglen =? 0); [discriminate|]. inversion H; subst. cbn [msg_ok]. apply Z.ltb_ge in E. cbn in E. lia.
+  - destruct (negb (ba_valid (from_wbits (Some ba)))) eqn:E1; [discriminate|].
+    destruct (size (Some (from_wbits (Some ba))) =? 0); [discriminate|].
+    destruct (max_votes_count <? size (Some (from_wbits (Some ba)))) eqn:E3; [discriminate|].
+    inversion H; subst. cbn. apply negb_false_iff in E1. apply Z.ltb_ge in E3.
+    apply (ba_valid_wf (Some ba)); [assumption|exact E3].
+  - destruct (negb (leaflen =? merkle_size)); [discriminate|].
+    destruct (negb (badaunts =? 0)); [discriminate|].
+    destruct (block_part_size_bytes <? byteslen); [discriminate|]. inversion H; subst. exact Ht.
+  - destruct v as [v|]; [|discriminate].
+    destruct (negb (type_valid (wv_type v))); [discriminate|].
+    destruct (negb (bid_zero (bid_of (wv_bid v))) && negb (bid_complete (bid_of (wv_bid v)))); [discriminate|].
+    destruct (wv_siglen v =? 0); [discriminate|]. inversion H; subst. exact Ht.
+  - destruct (type_valid t); inversion H; subst. exact Ht.
+  - destruct (type_valid t); inversion H; subst. exact I.
+  - destruct (negb (type_valid t)); [discriminate|].
+    destruct (negb (ba_valid (from_wbits (Some ba)))) eqn:E1; [discriminate|].
+    destruct (max_votes_count <? size (Some (from_wbits (Some ba)))) eqn:E3; [discriminate|].
+    inversion H; subst. cbn. apply negb_false_iff in E1. apply Z.ltb_ge in E3.
+    apply (ba_valid_wf (Some ba)); [assumption|exact E3].
+Qed.
+
+(** ** Receive *)
+
+(** what the node hands to the handler: validator counts within the vote-array bound and a
+    well-formed own vote array *)
+Definition env_ok (e : env) : Prop :=
+  e_vals e <= bmax /\ e_last_commit e <= bmax /\ wf_oba (e_our_votes e).
+
+Definition good (x : list ev * outcome * PRS) : Prop :=
+  let '(tr, o, p) := x in
+  held tr [] = [] /\ wf_prs p /\ (o = Accepted \/ o = Rejected).
+
+Lemma fin_good : forall tr r p, held tr [] = [] -> safe wf_prs r -> wf_prs p -> good (fin tr r p).
+Proof. intros tr r p Ht Hr Hp. destruct r; cbn in *; try contradiction. auto. Qed.
+
+Lemma dispatch_good : forall e ch m p, env_ok e -> msg_ok m -> wf_prs p -> good (dispatch e ch m p).
+Proof.
+  intros e ch m p [Hv [Hlc Hov]] Hm Hp. unfold dispatch.
+  destruct (ch =? chan_state).
+  { destruct m; try solve [cbn; auto].
+    - destruct (nrs_height_ok h lcr (e_initial e)); [|cbn; auto].
+      apply fin_good; [reflexivity|apply apply_nrs_wf; assumption|assumption].
+    - apply fin_good; [reflexivity|apply apply_nvb_wf; assumption|assumption].
+    - apply fin_good; [reflexivity|apply apply_hv_safe; assumption|assumption].
+    - destruct (e_maj23 e); cbn; auto. }
+  destruct (ch =? chan_data).
+  { destruct m; try solve [cbn; auto].
+    - apply fin_good; [reflexivity|apply set_has_proposal_safe; assumption|assumption].
+    - apply fin_good; [reflexivity|apply apply_pol_wf; assumption|assumption].
+    - apply fin_good; [reflexivity|apply set_has_part_safe; assumption|assumption]. }
+  destruct (ch =? chan_vote).
+  { destruct m; try solve [cbn; auto].
+    cbn [with_ps].
+    pose proof (ensure_vote_bit_arrays_safe p (e_height e) (e_vals e) Hp Hv) as H1.
+    destruct (ensure_vote_bit_arrays p (e_height e) (e_vals e)) as [p1| |]; cbn in H1; try contradiction.
+    pose proof (ensure_vote_bit_arrays_safe p1 (e_height e - 1) (e_last_commit e) H1 Hlc) as H2.
+    destruct (ensure_vote_bit_arrays p1 (e_height e - 1) (e_last_commit e)) as [p2| |]; cbn in H2; try contradiction.
+    apply fin_good; [reflexivity|apply set_has_vote_safe; assumption|assumption]. }
+  destruct (ch =? chan_vsb).
+  { destruct m; try solve [cbn; auto].
+    apply fin_good; [reflexivity| |assumption].
+    apply apply_vsb_safe; [assumption|assumption|]. destruct (e_height e =? h); [assumption|exact I]. }
+  cbn; auto.
+Qed.
+
+Definition st_ok (st : option PRS) : Prop := match st with None => True | Some p => wf_prs p end.
+
+(** the main statement about Receive: whatever the channel, the bytes (as decoded structure), the
+    node values and the peer state, the handler neither panics, nor allocates above the limit, nor
+    leaves a mutex held; and the peer state stays well-formed *)
+Lemma handle_good : forall e ch w st, env_ok e -> wire_typed w -> st_ok st ->
+  (fst (handle e ch w st) = Accepted \/ fst (handle e ch w st) = Rejected) /\ st_ok (snd (handle e ch w st)).
+Proof.
+  intros e ch w st He Hw Hst. unfold handle, handle_trace.
+  destruct (negb (e_running e)); [cbn; auto|].
+  destruct (from_proto w) as [m|] eqn:Em; [|cbn; auto].
+  destruct st as [p|]; [|cbn; auto].
+  pose proof (dispatch_good e ch m p He (from_proto_ok w m Hw Em) Hst) as Hg.
+  destruct (dispatch e ch m p) as [[tr o] p']. cbn in Hg. destruct Hg as [Hh [Hp Ho]].
+  rewrite Hh. cbn. auto.
+Qed.
+
+Lemma handle_no_crash : forall e ch w st, env_ok e -> wire_typed w -> st_ok st -> fst (handle e ch w st) <> Crash.
+Proof. intros e ch w st He Hw Hs. destruct (handle_good e ch w st He Hw Hs) as [[H|H] _]; rewrite H; discriminate. Qed.
+
+Lemma handle_no_leak : forall e ch w st, env_ok e -> wire_typed w -> st_ok st -> fst (handle e ch w st) <> LockLeak.
+Proof. intros e ch w st He Hw Hs. destruct (handle_good e ch w st He Hw Hs) as [[H|H] _]; rewrite H; discriminate. Qed.
+
+Lemma handle_no_alloc : forall e ch w st n, env_ok e -> wire_typed w -> st_ok st -> fst (handle e ch w st) <> Alloc n.
+Proof. intros e ch w st n He Hw Hs. destruct (handle_good e ch w st He Hw Hs) as [[H|H] _]; rewrite H; discriminate. Qed.
+
+Lemma handle_keeps_wf : forall e ch w st, env_ok e -> wire_typed w -> st_ok st -> st_ok (snd (handle e ch w st)).
+Proof. intros e ch w st He Hw Hs. exact (proj2 (handle_good e ch w st He Hw Hs)). Qed.
+
+(** invariant over any sequence of deliveries, starting from NewPeerState *)
+Fixpoint run (st : option PRS) (ds : list (env * Z * wire)) : list outcome * option PRS :=
+  match ds with
+  | [] => ([], st)
+  | (e, ch, w) :: t =>
+    let '(o, st') := handle e ch w st in
+    let '(os, st'') := run st' t in (o :: os, st'')
+  end.
+
+Lemma run_good : forall ds st,
+    st_ok st -> Forall (fun d => env_ok (fst (fst d)) /\ wire_typed (snd d)) ds ->
+    Forall (fun o => o = Accepted \/ o = Rejected) (fst (run st ds)) /\ st_ok (snd (run st ds)).
+Proof.
+  induction ds as [|[[e ch] w] t IH]; intros st Hst Hall; cbn; [auto|].
+  inversion Hall as [|d l [He Hw] Ht]; subst. cbn in He, Hw.
+  destruct (handle_good e ch w st He Hw Hst) as [Ho Hs].
+  destruct (handle e ch w st) as [o st'] eqn:Eh. cbn in Ho, Hs.
+  destruct (IH st' Hs Ht) as [Hos Hs']. destruct (run st' t) as [os st'']. cbn in *. auto.
+Qed.
+
+(** ** Gossip side *)
+
+Definition vs_ok (v : voteset) : Prop := vs_size v <= bmax /\ wf_oba (vs_bits v).
+
+Lemma pick_vote_pre_safe : forall p v, wf_prs p -> vs_ok v ->
+  safe (fun x => wf_prs (fst (fst x)) /\ wf_oba (snd (fst x))) (pick_vote_pre p v).
+Proof.
+  intros p v Hp [Hs Hb]. unfold pick_vote_pre.
+  destruct (vs_size v =? 0); [cbn; auto|].
+  eapply safe_bind with (P := wf_prs).
+  { destruct (vs_commit v); [apply ensure_catchup_safe; assumption|exact Hp]. }
+  intros p1 H1. eapply safe_bind; [apply ensure_vote_bit_arrays_safe; assumption|]. intros p2 H2.
+  destruct (get_slot p2 (vs_height v) (vs_round v) (vs_type v)) as [s|]; [|cbn; auto].
+  pose proof (wf_read_slot p2 s H2) as Hsl. destruct (read_slot p2 s) as [ps|]; [|cbn; auto].
+  eapply safe_bind; [apply (sub_safe (vs_bits v) (Some ps)); assumption|]. intros d Hd. cbn. auto.
+Qed.
+
+Lemma pick_vote_no_crash : forall p v, wf_prs p -> vs_ok v ->
+  (fst (fst (pick_vote p v)) = PickNone \/ fst (fst (pick_vote p v)) = PickSome) /\ wf_prs (snd (fst (pick_vote p v))).
+Proof.
+  intros p v Hp Hv. unfold pick_vote. pose proof (pick_vote_pre_safe p v Hp Hv) as H.
+  destruct (pick_vote_pre p v) as [[[p2 d] s]| |]; cbn in H; try contradiction.
+  cbn. destruct H as [H2 _]. destruct (pick_some d); auto.
+Qed.
+
+Lemma pick_vote_post_safe : forall p v idx, wf_prs p -> 0 <= idx -> safe wf_prs (pick_vote_post p v idx).
+Proof. intros. unfold pick_vote_post. now apply set_has_vote_safe. Qed.
+
+Lemma gossip_data_no_crash : forall p hh ours, wf_prs p -> wf_oba ours ->
+  fst (gossip_data p hh ours) = PickNone \/ fst (gossip_data p hh ours) = PickSome.
+Proof.
+  intros p hh ours Hp Ho. unfold gossip_data. destruct (negb hh); [cbn; auto|].
+  assert (H : safe wf_oba (do c <- (match p_parts p with None => Ok None | Some b => do c <- copy b; Ok (Some c) end); sub_ ours c)).
+  { eapply safe_bind with (P := wf_oba).
+    - destruct (p_parts p) as [b|] eqn:E; [|exact I].
+      assert (wf_ba b) by (unfold wf_prs in Hp; rewrite E in Hp; cbn in Hp; tauto).
+      eapply safe_bind; [apply copy_safe; assumption|]. intros c ->. assumption.
+    - intros c Hc. apply sub_safe; assumption. }
+  destruct (do c <- _; sub_ ours c) as [d| |]; cbn in H; try contradiction.
+  cbn. destruct (pick_some d); auto.
+Qed.
+
+(** ** Why the validation matters: the same handlers with an array ValidateBasic now refuses *)
+
+Definition bad_pol : BitArray := {| ba_bits := 4; ba_elems := [] |}.
+Definition prs_bad : PRS :=
+  {| p_height := 1; p_round := 2; p_step := 3; p_proposal := true; p_total := 1; p_parts := None;
+     p_polround := 1; p_pol := Some bad_pol; p_prevotes := None; p_precommits := None;
+     p_lcr := 0; p_lc := None; p_ccr := 0; p_cc := None; p_cc_alias := false |}.
+Definition env1 : env :=
+  {| e_running := true; e_height := 1; e_vals := 4; e_last_commit := 0; e_initial := 1; e_our_votes := None; e_maj23 := M23Skip |}.
+
+(** before 8b6016a ProposalPOL{Bits:4, Elems:[]} was accepted and stored; HasVote{H1,R1,prevote,0} then panics *)
+Example unvalidated_array_crashes :
+  fst (handle env1 chan_state (WHV 1 1 prevote_type 0) (Some prs_bad)) = Crash.
+Proof. reflexivity. Qed.
+
+Example bad_pol_now_rejected :
+  handle env1 chan_data (WPOL 1 1 {| wb_bits := 4; wb_elems := [] |}) (Some prs0) = (Rejected, Some prs0).
+Proof. reflexivity. Qed.
+
+Example negative_bits_rejected :
+  fst (handle env1 chan_data (WPOL 1 1 {| wb_bits := -200; wb_elems := [1%N] |}) (Some prs0)) = Rejected.
+Proof. reflexivity. Qed.
+
+(** the honest empty VoteSetBits reply (Bits 0, no words) against a 4-validator array: fine since 35ce00b *)
+Definition prs_votes : PRS :=
+  {| p_height := 1; p_round := 1; p_step := 3; p_proposal := false; p_total := 0; p_parts := None;
+     p_polround := 0; p_pol := None; p_prevotes := Some {| ba_bits := 4; ba_elems := [5%N] |}; p_precommits := None;
+     p_lcr := 0; p_lc := None; p_ccr := 0; p_cc := None; p_cc_alias := false |}.
+Definition env_vsb : env :=
+  {| e_running := true; e_height := 1; e_vals := 4; e_last_commit := 0; e_initial := 1;
+     e_our_votes := Some {| ba_bits := 4; ba_elems := [1%N] |}; e_maj23 := M23Skip |}.
+Definition some_bid : WBlockID := {| w_hash := [1%N]; w_total := 1; w_pshash := [1%N] |}.
+
+Example empty_votes_accepted :
+  fst (handle env_vsb chan_vsb (WVSB 1 1 prevote_type some_bid {| wb_bits := 0; wb_elems := [] |}) (Some prs_votes)) = Accepted.
+Proof. reflexivity. Qed.
+
+(** a proposal claiming 2^32-1 parts is refused since 512e73d (before: 512 MiB per message) *)
+Example huge_total_rejected :
+  fst (handle env1 chan_data (WProp 1 1 0 {| w_hash := [1%N]; w_total := 4294967295; w_pshash := [1%N] |} 65) (Some prs0)) = Rejected.
+Proof. reflexivity. Qed.
+
+(** the hypotheses of the main lemma are satisfiable *)
+Example hyps_satisfiable : env_ok env_vsb /\ st_ok (Some prs_votes) /\ wire_typed (WHV 1 1 1 0).
+Proof.
+  unfold env_ok, st_ok, wf_prs, wf_oba, wf_ba, bmax, max_votes_count, words_for, len; cbn.
+  repeat split; try lia; try discriminate.
+Qed.
+
+(** ** Block-sync reactor: lock balance (and the regression 2cdb1a0 repaired) *)
 
 Lemma bc_locks_balanced : forall m c, bc_receive m c <> LockLeak.
 Proof.
   intros m c. unfold bc_receive, seal2, bc_receive_trace.
   destruct (negb (bc_valid m)); cbn; [discriminate|].
-  destruct m; cbn; try discriminate; destruct c; cbn; try discriminate;
-    try (destruct block_ok; cbn; discriminate).
+  destruct m; cbn; try discriminate; destruct c; cbn; discriminate.
+Qed.
+
+Lemma bc_no_crash : forall m c, bc_receive m c = Accepted \/ bc_receive m c = Rejected.
+Proof.
+  intros m c. unfold bc_receive, seal2, bc_receive_trace.
+  destruct (negb (bc_valid m)); cbn; [auto|].
+  destruct m; cbn; auto; destruct c; cbn; auto.
 Qed.
 
 Example bc_old_leaks : bc_receive_old (BBlockResp true) false = LockLeak.
 Proof. reflexivity. Qed.
+
+(** ** Framing *)
+
+(** a delivered message never exceeds the channel's RecvMessageCapacity *)
+Lemma frame_step_cap : forall cfg recving f evs r' alive ch total cap,
+    frame_step cfg recving f = (evs, r', alive) -> In (FRecv ch total) evs ->
+    lookup ch (c_caps cfg) = Some cap -> total <= cap.
+Proof.
+  intros cfg recving f evs r' alive ch total cap H Hin Hcap.
+  destruct f; cbn in H; try (inversion H; subst; cbn in Hin; intuition discriminate).
+  destruct (c_max_packet cfg <? pktlen); [inversion H; subst; cbn in Hin; intuition discriminate|].
+  destruct (lookup (ch0 mod 256) (c_caps cfg)) as [cap'|] eqn:El; [|inversion H; subst; cbn in Hin; intuition discriminate].
+  destruct (cap' <? match lookup (ch0 mod 256) recving with Some x => x | None => 0 end + datalen) eqn:Ec;
+    [inversion H; subst; cbn in Hin; intuition discriminate|].
+  destruct eof; inversion H; subst; cbn in Hin; [|contradiction].
+  destruct Hin as [Hin|[]]. inversion Hin; subst. rewrite El in Hcap. inversion Hcap; subst.
+  apply Z.ltb_ge in Ec. exact Ec.
+Qed.
+
+(** ** Wire round trip of the modelled consensus messages *)
+
+(** MsgToProto of a message, seen through Unmarshal (hashes are 32 bytes on the way out) *)
+Definition hash32 (zero : bool) : list N := if zero then repeat 0%N 32 else 1%N :: repeat 0%N 31.
+
+Definition to_wire (m : msg) : wire :=
+  match m with
+  | MNRS h r s secs lcr => WNRS h r s secs lcr
+  | MNVB h r total ba ic => WNVB h r total (hash32 false) (Some (to_wbits ba)) ic
+  | MPOL h polr ba => WPOL h polr (to_wbits ba)
+  | MHV h r t idx => WHV h r t idx
+  | MVSB h r t ba => WVSB h r t {| w_hash := hash32 false; w_total := 1; w_pshash := hash32 false |} (to_wbits ba)
+  | MM23 h r t => WM23 h r t {| w_hash := hash32 false; w_total := 1; w_pshash := hash32 false |}
+  | MBP h r idx => WBP h r idx 0 merkle_size 0 0
+  | MProp h r polr total => WProp h r polr {| w_hash := hash32 false; w_total := total; w_pshash := hash32 false |} 65
+  | MVote t h r idx => WVoteMsg (Some {| wv_type := t; wv_height := h; wv_round := r;
+                                         wv_bid := {| w_hash := hash32 true; w_total := 0; w_pshash := hash32 true |};
+                                         wv_index := idx; wv_siglen := 65 |})
+  end.
+
+(** a message as the node itself builds it *)
+Definition msg_wellformed (m : msg) : Prop :=
+  match m with
+  | MNRS _ _ s _ _ => step_min <= s <= step_max
+  | MNVB _ _ total ba _ => wf_ba ba /\ 0 < ba_bits ba /\ ba_bits ba = total /\ total <= max_block_parts_count
+  | MPOL _ _ ba => wf_ba ba /\ 0 < ba_bits ba
+  | MHV _ _ t _ | MM23 _ _ t => type_valid t = true
+  | MVSB _ _ t ba => type_valid t = true /\ wf_ba ba
+  | MBP _ _ _ => True
+  | MProp _ _ _ total => 0 < total <= max_block_parts_count
+  | MVote t _ _ _ => type_valid t = true
+  end.
+
+Lemma from_to_wbits : forall ba, wf_ba ba -> from_wbits (Some (to_wbits ba)) = ba.
+Proof.
+  intros [bits elems] [Hb Hl]. cbn in *. unfold from_wbits, to_wbits. cbn.
+  rewrite as_int_small by (apply bmax_int32; assumption). rewrite as_uint_small by (apply bmax_int32; assumption). reflexivity.
+Qed.
+
+Lemma wf_ba_valid : forall ba, wf_ba ba -> ba_valid ba = true.
+Proof.
+  intros ba [Hb Hl]. unfold ba_valid. rewrite as_int_small by (apply bmax_int32; assumption).
+  apply andb_true_iff. split; [apply Z.leb_le; pose proof bmax_facts; lia|apply Z.eqb_eq; exact Hl].
+Qed.
+
+Lemma wire_roundtrip : forall m, msg_wellformed m -> from_proto (to_wire m) = Some m.
+Proof.
+  intros m H. pose proof bmax_facts as [F1 [F2 [F3 F4]]]. destruct m; cbn [to_wire from_proto].
+  - cbn in H. assert (step mod 256 = step) as -> by (apply Z.mod_small; unfold step_min, step_max in H; lia).
+    destruct H as [H1 H2]. apply Z.leb_le in H1. apply Z.leb_le in H2. now rewrite H1, H2.
+  - destruct H as [Hw [Hp [Ht Hm]]]. rewrite (from_to_wbits ba Hw). rewrite (wf_ba_valid ba Hw). cbn [negb size].
+    destruct Hw as [Hb Hl]. rewrite as_int_small by (apply bmax_int32; assumption).
+    assert (ba_bits ba =? 0 = false) as -> by (apply Z.eqb_neq; lia).
+    assert (ba_bits ba =? total = true) as -> by (apply Z.eqb_eq; assumption).
+    assert (max_block_parts_count <? ba_bits ba = false) as -> by (apply Z.ltb_ge; lia). reflexivity.
+  - cbn in H. unfold bid_of, bid_complete, psh_zero. cbn.
+    assert (total =? 0 = false) as -> by (apply Z.eqb_neq; lia).
+    assert (max_block_parts_count <? total = false) as -> by (apply Z.ltb_ge; lia). reflexivity.
+  - destruct H as [Hw Hp]. rewrite (from_to_wbits ba Hw). rewrite (wf_ba_valid ba Hw). cbn [negb size].
+    destruct Hw as [Hb Hl]. rewrite as_int_small by (apply bmax_int32; assumption).
+    assert (ba_bits ba =? 0 = false) as -> by (apply Z.eqb_neq; lia).
+    assert (max_votes_count <? ba_bits ba = false) as -> by (apply Z.ltb_ge; unfold bmax in Hb; lia). reflexivity.
+  - unfold merkle_size. cbn. reflexivity.
+  - cbn in H. cbn. rewrite H. cbn. reflexivity.
+  - cbn in H. cbn. now rewrite H.
+  - cbn in H. cbn. now rewrite H.
+  - destruct H as [Ht Hw]. rewrite Ht. cbn [negb]. rewrite (from_to_wbits ba Hw). rewrite (wf_ba_valid ba Hw). cbn [negb size].
+    destruct Hw as [Hb Hl]. rewrite as_int_small by (apply bmax_int32; assumption).
+    assert (max_votes_count <? ba_bits ba = false) as -> by (apply Z.ltb_ge; unfold bmax in Hb; lia). reflexivity.
+Qed.
